@@ -256,6 +256,16 @@ func (h *Hist) Update(t *model.Table) *proto.Stmt {
 		}
 		s.Sets = append(s.Sets, proto.SetItem{Col: c.Name, Val: v})
 	}
+	if len(s.Sets) > 0 && len(s.Sets) < len(t.Cols) && h.R.Chance(1, 12) {
+		// the same assignments written several times (same column, same
+		// value: whichever of them counts, the outcome is the same), so that
+		// the SET list is as long as the table is wide, or longer, without
+		// naming every column
+		base := len(s.Sets)
+		for want := len(t.Cols) + h.R.Intn(3); len(s.Sets) < want; {
+			s.Sets = append(s.Sets, s.Sets[h.R.Intn(base)])
+		}
+	}
 	if h.R.Chance(9, 10) {
 		s.Where = h.Where(t)
 	}
